@@ -86,6 +86,12 @@ func roundtrip(env *hx.Env, ctx sdk.Context, rn hx.Runner, mod string, doPrep bo
 	if s1 != "ok" {
 		return "ok export=" + s1
 	}
+	// runners that can render the exported document canonically (htlc): printed next to a failed
+	// import, for the model's own verdict on the same document (Driver/Genesis.lean: modelConfirms)
+	doc := ""
+	if gd, ok := rn.(interface{ GenesisDoc(sdk.Context) string }); ok {
+		doc = " " + gd.GenesisDoc(ctx)
+	}
 	validate := "ok"
 	mm := env.App.ModuleManager.Modules[mod]
 	if hb, ok := mm.(module.HasGenesisBasics); ok {
@@ -119,7 +125,7 @@ func roundtrip(env *hx.Env, ctx sdk.Context, rn hx.Runner, mod string, doPrep bo
 		if len(imp) > 160 {
 			imp = imp[:160]
 		}
-		return fmt.Sprintf("ok export=ok validate=%s import=%s", trunc(validate), imp)
+		return fmt.Sprintf("ok export=ok validate=%s import=%s%s", trunc(validate), imp, doc)
 	}
 	ctx = cctx // from here on: the re-imported branch
 	g2, s2 := export(env, ctx, mod)
